@@ -715,6 +715,7 @@ def gen_multi(rng, nmax=5, tmax=12):
             # revenue rate (50% of the products); policy and demand source given on the product instead of per (node, product) (products of one node only:
             # a Policy object refers to its node)
             pr['rev'] = Fraction(rng.randint(1, 12), 4) if rng.random() < 0.5 else Fraction(0)
+            pr['decoy'] = pr['where'] == 'node' and rng.random() < 0.5       # per-(node, product) values at the node AND different values on the product, which must be ignored
             pr['pol_where'] = 'node' if pr['shared'] else rng.choice(['product', 'node'])
             pr['dem_where'] = 'node' if pr['shared'] else rng.choice(['product', 'node'])
         d = [prods[k]['demand'] is not None for k in nodes[i]['products']]
@@ -806,6 +807,11 @@ def build_multi(case):
             P[k].in_transit_holding_cost = None if v['ith'] is None else float(v['ith'])
             P[k].order_capacity = v['cap']; P[k].initial_inventory_level = v['init_il']
             P[k].revenue = float(v.get('rev', 0))
+        elif v.get('decoy'):
+            P[k].local_holding_cost = float(v['h']) + 3; P[k].stockout_cost = float(v['p']) + 3; P[k].revenue = float(v.get('rev', 0)) + 3
+            if v['ith'] is not None: P[k].in_transit_holding_cost = float(v['ith']) + 3
+            if v['cap'] is not None: P[k].order_capacity = v['cap'] + 3
+            if v['init_il'] is not None: P[k].initial_inventory_level = v['init_il'] + 3
     return net
 
 
@@ -1118,7 +1124,15 @@ def check_single(chk, pid, case, model=None, count=True):
     except Exception as e:
         _fail(chk, 'raises-%s' % exc_kind(e), 'simulation() raises %s: %s' % (type(e).__name__, str(e)[:300]), case)
         return None, set()
-    spec = spec_single(case, impl['struct']); G = g_single(impl['recs'])
+    try:
+        spec = spec_single(case, impl['struct'])
+    except AssertionError:
+        st = impl['struct']
+        _fail(chk, 'network-structure-differs-from-the-specified-network', 'the network object reports predecessors %s, successors %s, external supplier %s, external customer %s; the case specifies edges %s, '
+              'external suppliers at the nodes without predecessors and at %s, demand at %s' % (st['preds'], st['succs'], st['ext_sup'], st['has_dem'], case['edges'],
+              [i for i in case['ids'] if case['nodes'][i].get('ext')], [i for i in case['ids'] if case['nodes'][i]['demand'] is not None]), case)
+        return None, set()
+    G = g_single(impl['recs'])
     cov = coverage(spec, G)
     bad = monitors(pid, spec, G, impl['total'], cover=cov)
     neg = negative_initial(spec)
